@@ -45,6 +45,7 @@ type Session struct {
 	Obligs   []*Oblig
 	Unsup    string // non-empty: function is outside the subset (reason)
 	Trusted  bool
+	Assumed  []string // clauses of this function that are assumed, not proved
 	usesQuant bool
 	ReplayStr *StrV // the input buffer (pre-state) for counterexample replay
 }
